@@ -168,6 +168,8 @@ def _local_env(fn):
 
 
 def run(ck, m):
+    from rules.common import rule_memo_safety
+    rule_memo_safety(ck, m, "MEMO", "C06")          # first: a memoised helper also hides the code it wraps from the rules below
     from rules.c01 import raw_applications, rule_operand_sign
     # ---- R1 ----------------------------------------------------------------------------
     n1 = rule_operand_sign(ck, m, "R1", only=lambda rel, q: q.endswith("_display_animated"))
@@ -368,8 +370,18 @@ def run(ck, m):
         ck.ob("R3", enclosing_stmt(early[0]) if early else od2, not early, f"BaseImage.draw writes to the terminal (`{short(early[0], 50) if early else ''}`) before self._renderer() has validated the size: a rejected draw must leave the terminal untouched",
               stmt="BaseImage.draw: no output before size validation")
 
-    from rules.common import rule_memo_safety
-    rule_memo_safety(ck, m, "MEMO", "C06")
+    # horizontal repositioning in the animation drivers is absolute (CR, then forward): a relative move back is wrong when the frame touches
+    # the right margin (the cursor sits on the last column with a pending wrap, so `CUB n` lands one column off)
+    for fn_ in (an, da):
+        back = [n_ for n_ in body_walk(fn_) if (isinstance(n_, ast.Call) and (call_name(n_) or "").split(".")[-1] == "cursor_backward") or (isinstance(n_, (ast.Name, ast.Attribute)) and (dotted(n_) or "").split(".")[-1] == "CURSOR_BACKWARD")]
+        ck.ob("R2", enclosing_stmt(back[0]) if back else fn_, not back, f"{fn_.name} moves the cursor back relatively (`{short(back[0], 40) if back else ''}`); the return to the left edge of the render must be CR + CURSOR_FORWARD(pad_left)",
+              stmt=f"{fn_.name}: no relative backward move")
+    ups = [c for c in writes if any(isinstance(x, ast.Call) and (call_name(x) or "") == "cursor_up" for a_ in c.args for x in ast.walk(trace(an, a_)))]
+    for c in ups:
+        t_ = trace(an, c.args[0])
+        first = t_.values[0] if isinstance(t_, ast.JoinedStr) and t_.values else t_
+        ck.ob("R2", enclosing_stmt(c), isinstance(first, ast.Constant) and isinstance(first.value, str) and first.value.startswith("\r"),
+              f"`{short(c, 50)}` moves up without first returning to column 0 with CR", stmt="_animate_: vertical return starts with CR")
 
 
 def _anc(n):
